@@ -519,7 +519,10 @@ func (e *explorer) report(full []string, fs []fail) {
 // replayHistory executes full on a fresh store and evaluates the oracle after its last step.
 func (e *explorer) replayHistory(full []string) []fail {
 	if len(full) == 0 {
-		return nil
+		c := &ctx{e.build(nil)}
+		defer func() { c.s.Destroy() }()
+		fs, _ := e.check(c, "connect")
+		return fs
 	}
 	s := e.build(full[:len(full)-1])
 	c := &ctx{s}
@@ -724,11 +727,8 @@ func main() {
 		cold  bool
 	}
 	phases := []phase{
-		{"warm", all, r.Pick(5, 6), false},
-		{"reopened", all, r.Pick(3, 4), true},
-	}
-	if r.Thorough() {
-		phases = append(phases, phase{"warm-chains", []string{"split", "join", "zero", "zerospend", "fanout", "part1", "part2"}, 7, false})
+		{"warm", all, r.Pick(5, 7), false},
+		{"reopened", all, r.Pick(4, 5), true},
 	}
 	var totNodes, totTrans, totChecks, totInst, totReopen, totRebuilt int64
 	states := map[string]bool{}
